@@ -268,6 +268,8 @@ def _relative_dates(text, t0_s):
             t = calendar.timegm(time.strptime(m.group(0), '%a, %d %b %Y %H:%M:%S GMT'))
         except ValueError:
             return m.group(0)
+        if abs(t - t0_s) > 20 * 86400:
+            return m.group(0)             # the fixed Last-Modified values, far in the past
         return '<T%+ds>' % (t - t0_s)
     return _DATE_RE.sub(sub, text)
 
